@@ -28,6 +28,10 @@ for sid in sorted(os.listdir(os.path.join(ROOT, 'seeded'))):
             verdict = 'undecided'
             u = [l for l in lines if l.startswith('UNDECIDED')]
             how = (u[0][11:] if u else '')[:110]
+        elif any('proof undecided' in l for l in lines):
+            verdict = 'undecided'
+            u = [l for l in lines if l.startswith('UNDECIDED')]
+            how = 'exit 0, nothing proved; stand-in found no input: ' + (u[0][11:] if u else '')[:90]
         else:
             verdict, how = 'missed', ''
     tally[verdict] = tally.get(verdict, 0) + 1
